@@ -1,6 +1,6 @@
 use proc_macro2::{Span, TokenStream};
 use quote::{format_ident, quote};
-use syn::{Data, DeriveInput, Fields, Type};
+use syn::{parse::Parser, punctuated::Punctuated, Data, DeriveInput, Fields, Token, Type};
 
 use crate::helpers::{non_enum_error, HasStrumVariantProperties, HasTypeProperties};
 
@@ -11,19 +11,25 @@ pub fn from_repr_inner(ast: &DeriveInput) -> syn::Result<TokenStream> {
     let vis = &ast.vis;
 
     let mut discriminant_type: Type = syn::parse("usize".parse().unwrap()).unwrap();
-    if let Some(type_path) = ast
+    // `#[repr(..)]` can hold several hints (`#[repr(C, u8)]`, `#[repr(align(4), u8)]`); the
+    // discriminant type is the integer one among them.
+    let repr_hints = ast
         .get_type_properties()
         .ok()
         .and_then(|tp| tp.enum_repr)
-        .and_then(|repr_ts| syn::parse2::<Type>(repr_ts).ok())
-    {
-        if let Type::Path(path) = type_path.clone() {
-            if let Some(seg) = path.path.segments.last() {
+        .and_then(|repr_ts| {
+            Punctuated::<syn::Meta, Token![,]>::parse_terminated
+                .parse2(repr_ts)
+                .ok()
+        });
+    for hint in repr_hints.into_iter().flatten() {
+        if let syn::Meta::Path(path) = hint {
+            if let Some(seg) = path.segments.last() {
                 for t in &[
                     "u8", "u16", "u32", "u64", "usize", "i8", "i16", "i32", "i64", "isize",
                 ] {
                     if seg.ident == t {
-                        discriminant_type = type_path;
+                        discriminant_type = Type::Path(syn::TypePath { qself: None, path: path.clone() });
                         break;
                     }
                 }
